@@ -461,7 +461,7 @@ impl Check for C09 {
             "default ports are the definitions table's (per-game modules are compared with it in C14)".into(),
         ]
     }
-    fn total_cases(&self, tier: Tier) -> u64 { N_WORDS * 3 + tier.pick(20_000, 1_000_000) }
+    fn total_cases(&self, tier: Tier) -> u64 { N_WORDS * 3 + tier.pick(100_000, 1_000_000) }
     fn exhaustive(&self, _tier: Tier) -> Option<bool> { Some(true) }
     fn case_label(&self, _tier: Tier, idx: u64) -> String { if idx < N_WORDS * 3 { "valve-challenge-enumeration".into() } else { "random".into() } }
     fn run_case(&mut self, cx: &mut Cx) {
